@@ -205,11 +205,11 @@ def ffi_cycle_scenarios():
             if not all(ch in keys for ch in t):
                 continue
             for ti, tail in enumerate(tails + ([learn] if (t == "ami" and label == "phonetic list") else [])):
-                for late in (False, True):
+                for late in (False, True, "suggestions first"):
                     if late and ti not in (0, 1):
                         continue
                     ev = [{"key": keys[ch], "sel": 0} for ch in t] + tail
-                    scs.append({"steps": [{"op": "ffi_cycle", "config": cfg, "events": ev, "late_free": late}]})
+                    scs.append({"steps": [{"op": "ffi_cycle", "config": cfg, "events": ev, "late_free": bool(late), "suggestions_freed_first": late == "suggestions first"}]})
                     meta.append((label, cfg, t, tail, late))
     return scs, meta
 
@@ -235,7 +235,7 @@ def confirm_ffi_cycle(harness):
             if what:
                 return dict(key=harness + " natively reproduced",
                             what="C interface life cycle (%s, options %s): typed %r%s%s: %s" % (
-                                label, json.dumps(cfg["opts"]), t, (" then %s" % json.dumps(tail)) if tail else "", ", strings freed after the context" if late else "", what),
+                                label, json.dumps(cfg["opts"]), t, (" then %s" % json.dumps(tail)) if tail else "", (", strings read again after their suggestions were freed" if late == "suggestions first" else ", strings freed after the context") if late else "", what),
                             replay=dict(scenario=sc, observed=x, kani_harness=harness, failed_checks=[q["description"] for q in r["failed"]][:5]))
         return False
     return f
@@ -263,7 +263,7 @@ def obl_ffi_lifecycle_validation(check):
             what = "%d block(s) / %d byte(s) still allocated after every returned pointer was given to its free function" % (x["net_blocks"], x["net_bytes"])
         if what:
             st = check.finding("C interface life cycle", "C interface life cycle (%s, options %s): typed %r%s%s: %s" % (
-                label, json.dumps(cfg["opts"]), t, (" then %s" % json.dumps(tail)) if tail else "", ", strings freed after the context" if late else "", what),
+                label, json.dumps(cfg["opts"]), t, (" then %s" % json.dumps(tail)) if tail else "", (", strings read again after their suggestions were freed" if late == "suggestions first" else ", strings freed after the context") if late else "", what),
                 dict(scenario=sc, observed=x))
             check.obligation("ffi_lifecycle_validation", "native validation", st, "a real life cycle contradicts the harness model")
             return
